@@ -756,10 +756,15 @@ pub fn worker_main(args: &Args, w: usize, n: usize) -> ! {
         let lo = total * w as u64 / n as u64;
         let hi = total * (w as u64 + 1) / n as u64;
         let case_dir = scratch.path.join(format!("case-{ii}"));
+        let mut fifo_blocked = false;
         for i in lo..hi {
             let case = &cases[i as usize];
             hooks.set_short_reads(if i % 2 == 1 { 300 } else { 0 }, i);
-            let r = if case.kind == Kind::Fifo {
+            let r = if case.kind == Kind::Fifo && fifo_blocked {
+                // an earlier named-pipe case of this worker never came back: the others are not run
+                // (each would cost the whole watchdog period), they count as the same complaint
+                Ok(vec!["a named pipe sits at a pack's recorded location and the reader never answers (not run again: an earlier case of this kind blocked)".to_string()])
+            } else if case.kind == Kind::Fifo {
                 // a reader that opens the pipe never comes back: the case runs on its own thread
                 // and is given 20 s (it takes about a millisecond)
                 let (tx, rx) = std::sync::mpsc::channel();
@@ -771,6 +776,7 @@ pub fn worker_main(args: &Args, w: usize, n: usize) -> ! {
                 match rx.recv_timeout(std::time::Duration::from_secs(20)) {
                     Ok(r) => r,
                     Err(_) => {
+                        fifo_blocked = true;
                         release_fifos(&case_dir);
                         let _ = rx.recv_timeout(std::time::Duration::from_secs(5));
                         Ok(vec!["a named pipe sits at a pack's recorded location and the reader never answers (no result within 20 s): it blocks opening the pipe".to_string()])
